@@ -213,6 +213,17 @@ func runRx(c rxCase) *vh.Failure {
 							return fail("C15/short-read-invents-bytes", "Read(p[%d]) with %d available returned n=%d and p[:n]=%x, available were %x", n, len(flat), m, got[:minInt(m, len(got))], flat)
 						}
 					}
+					// ... and all of them: the failed attempt has consumed what was available, so
+					// bytes it does not hand out are lost to a consumer that goes on reading
+					// (Bytes documents "the bytes that were available"; Read is an io.Reader:
+					// n counts the bytes read also when an error is returned)
+					handed := len(got)
+					if o.K == "read" {
+						handed = readCount
+					}
+					if (o.K == "read" || o.K == "bytes") && handed != len(flat) {
+						return fail("C15/short-read-drops-bytes", "%s of %d bytes with %d available failed and handed out %d bytes; the %d available ones are consumed", o.K, n, len(flat), handed, len(flat))
+					}
 					// everything available counts as consumed by the failed attempt
 					consumed += len(flat)
 					flat = nil
